@@ -52,11 +52,28 @@ def flat(a):
 
 
 def mk_grid(g):
-    return Grid(size=tuple(g["size"]), origin=tuple(g["origin"]), spacing=tuple(g["spacing"]), direction=g["direction"])
+    return Grid(size=tuple(g["size"]), origin=tuple(g["origin"]), spacing=tuple(g["spacing"]), direction=g["direction"],
+                align_corners=bool(g.get("align_corners", True)))
+
+
+def relayout(t, layout):
+    """same logical tensor in another memory layout (the file must not depend on it)"""
+    if not layout or layout == "contiguous":
+        return t
+    if layout == "fortran":
+        rev = tuple(reversed(range(t.ndim)))
+        return t.permute(*rev).contiguous().permute(*rev)
+    if layout == "strided":
+        big = torch.zeros(t.shape[:-1] + (2 * t.shape[-1],), dtype=t.dtype)
+        big[..., ::2] = t
+        return big[..., ::2]
+    if layout == "expanded":      # all channels share the memory of the first (values are generated accordingly)
+        return t[:1].expand(*t.shape)
+    raise KeyError(layout)
 
 
 def grid_out(g):
-    return {"size": [int(n) for n in g.size()], "origin": flat(g.origin()), "spacing": flat(g.spacing()),
+    return {"align_corners": bool(g.align_corners()), "size": [int(n) for n in g.size()], "origin": flat(g.origin()), "spacing": flat(g.spacing()),
             "direction": [flat(r) for r in g.direction()]}
 
 
@@ -64,7 +81,7 @@ def mk_data(c, chan=True):
     D = len(c["grid"]["size"])
     shape = ((c["C"],) if chan else ()) + tuple(reversed(c["grid"]["size"]))
     a = np.array(c["values"], dtype=NP_DT[c["dtype"]]).reshape(shape)
-    return torch.from_numpy(a)
+    return relayout(torch.from_numpy(a), c.get("layout"))
 
 
 def tensor_out(t):
@@ -190,7 +207,7 @@ def case_roundtrip(c, path):
     out.update(views(path, c["fmt"]))
     try:
         if c.get("entry") == "Image":
-            im = Image.read(path)
+            im = Image.read(path, align_corners=bool(c["grid"].get("align_corners", True)))
             d2, g2 = im.tensor(), im.grid()
         else:
             d2, g2 = read_image(path)
@@ -198,7 +215,7 @@ def case_roundtrip(c, path):
     except Exception as e:  # noqa
         out["read"] = err(e)
     try:
-        g3 = Grid.from_file(path)
+        g3 = Grid.from_file(path, align_corners=bool(c["grid"].get("align_corners", True)))
         out["from_file"] = grid_out(g3)
     except Exception as e:  # noqa
         out["from_file"] = err(e)
@@ -251,8 +268,10 @@ def case_flow(c, path):
         D = grid.ndim
         shape = (D,) + tuple(grid.shape)
         a = np.array(c["values"], dtype=NP_DT[c["dtype"]]).reshape(shape)
-        flow = FlowField(torch.from_numpy(a), grid, AXES[c["axes"]])
+        axes0 = Axes.from_grid(grid) if c["axes"] == "from_grid" else AXES[c["axes"]]
+        flow = FlowField(relayout(torch.from_numpy(a), c.get("layout")), grid, axes0)
         out["grid_in"] = grid_out(grid)
+        out["axes_in"] = axes0.value
         out["world"] = tensor_out(flow.axes(Axes.WORLD).tensor())
     except Exception as e:  # noqa
         return {"setup": err(e)}
@@ -264,10 +283,12 @@ def case_flow(c, path):
         return out
     out.update(views(path, c["fmt"]))
     try:
-        f2 = FlowField.read(path)
+        f2 = FlowField.read(path, align_corners=bool(c["grid"].get("align_corners", True)))
         out["read_axes"] = f2.axes().value
         out["read"] = {"data": tensor_out(f2.tensor()), "grid": grid_out(f2.grid())}
-        f3 = f2.axes(AXES[c["axes"]])
+        # back to the ORIGINAL representation: for "from_grid" that is whatever the grid read back says
+        f3 = f2.axes(Axes.from_grid(f2.grid()) if c["axes"] == "from_grid" else AXES[c["axes"]])
+        out["back_axes"] = f3.axes().value
         out["back"] = tensor_out(f3.tensor())
     except Exception as e:  # noqa
         out["read"] = err(e)
@@ -281,16 +302,18 @@ def case_flow_sitk(c, path):
         grid = mk_grid(c["grid"])
         D = grid.ndim
         a = np.array(c["values"], dtype=NP_DT[c["dtype"]]).reshape((D,) + tuple(grid.shape))
-        flow = FlowField(torch.from_numpy(a), grid, AXES[c["axes"]])
+        axes0 = Axes.from_grid(grid) if c["axes"] == "from_grid" else AXES[c["axes"]]
+        flow = FlowField(relayout(torch.from_numpy(a), c.get("layout")), grid, axes0)
+        out["axes_in"] = axes0.value
         out["world"] = tensor_out(flow.axes(Axes.WORLD).tensor())
         im = flow.sitk()
         arr = sitk.GetArrayFromImage(im)
         out["sitk"] = {"size": list(im.GetSize()), "ncomp": im.GetNumberOfComponentsPerPixel(), "shape": list(arr.shape),
                        "payload": flat(arr), "direction": list(im.GetDirection()), "origin": list(im.GetOrigin()),
                        "spacing": list(im.GetSpacing())}
-        f2 = FlowField.from_sitk(im)
+        f2 = FlowField.from_sitk(im, align_corners=bool(c["grid"].get("align_corners", True)))
         out["read_axes"] = f2.axes().value
-        out["back"] = tensor_out(f2.axes(AXES[c["axes"]]).tensor())
+        out["back"] = tensor_out(f2.axes(Axes.from_grid(f2.grid()) if c["axes"] == "from_grid" else AXES[c["axes"]]).tensor())
         out["grid_in"] = grid_out(grid)
         out["read"] = {"grid": grid_out(f2.grid())}
     except Exception as e:  # noqa
